@@ -82,11 +82,57 @@ def run_parity(ctx: Ctx) -> RuleResult:
         if not ok:
             res.finding(nr, nr.node, 'Transformer_NonRecursive.transform differs from Transformer on %s (reference %s, here %s)'
                         % (k_, ref[k_], fe[k_]), construct='nonrec:' + k_)
-    ok = fe['discard_filter'] >= fe['calls'] >= 2
-    res.ob(s2, 'non-recursive traversal filters Discard after each of its %d dispatch calls' % fe['calls'], ok)
-    if not ok:
-        res.finding(nr, nr.node, 'Transformer_NonRecursive.transform filters Discard %d times for %d dispatch calls'
-                    % (fe['discard_filter'], fe['calls']), construct='nonrec:discard')
+    # stack discipline: a node takes `len(children)` entries from the stack, so every element of the postfix order must leave exactly
+    # one entry -- on every path through one round of the loop -- and what a callback discarded is dropped where the entries are taken
+    loops = [n for n in nr.body_nodes() if isinstance(n, ast.For) and norm(n.iter).startswith('reversed(')]
+    ok_bal, ok_take, ok_root = False, False, False
+    why = 'postfix loop not found'
+    if loops:
+        lp = loops[0]
+        takes = [n for n in ast.walk(lp) if isinstance(n, ast.Subscript) and isinstance(n.slice, ast.Slice) and n.slice.lower is not None
+                 and isinstance(n.slice.lower, ast.UnaryOp) and isinstance(n.slice.lower.op, ast.USub) and isinstance(n.ctx, ast.Load)]
+        stack_names = {norm(t.value) for t in takes}
+        if len(stack_names) == 1:
+            stk = next(iter(stack_names))
+
+            def pushes(stmts) -> Set[int]:
+                counts = {0}
+                for st in stmts:
+                    if isinstance(st, ast.If):
+                        here = pushes(st.body) | pushes(st.orelse)
+                    elif isinstance(st, (ast.For, ast.While, ast.Try, ast.With)):
+                        here = {0, 2} if any(isinstance(c, ast.Call) and norm(c.func) == stk + '.append' for c in ast.walk(st)) else {0}
+                    else:
+                        here = {sum(1 for c in ast.walk(st) if isinstance(c, ast.Call) and norm(c.func) == stk + '.append')}
+                    counts = {a + b for a in counts for b in here}
+                return counts
+            cs = pushes(lp.body)
+            ok_bal = cs == {1}
+            why = 'a round of the loop leaves %s entries' % sorted(cs)
+            # the entries a node takes are filtered
+            for t in takes:
+                p_ = parent(t)
+                if isinstance(p_, ast.comprehension) and any(isinstance(c, ast.Compare) and len(c.ops) == 1 and isinstance(c.ops[0], ast.IsNot)
+                                                              and norm(c.comparators[0]) == 'Discard' for i_ in p_.ifs for c in ast.walk(i_)):
+                    ok_take = True
+            # a discarded root gives None, as in Transformer.transform
+            ok_root = any(isinstance(n, ast.If) and any(isinstance(c, ast.Compare) and len(c.ops) == 1 and isinstance(c.ops[0], ast.Is)
+                                                        and norm(c.comparators[0]) == 'Discard' for c in ast.walk(n.test))
+                          and any(isinstance(r, ast.Return) and (r.value is None or (isinstance(r.value, ast.Constant) and r.value.value is None))
+                                  for r in n.body) for n in nr.body_nodes())
+        else:
+            why = 'cannot tell which list is the value stack (%s)' % sorted(stack_names)
+    res.ob(s2, 'non-recursive traversal: every element of the postfix order leaves exactly one stack entry (a node takes len(children) entries)', ok_bal)
+    if not ok_bal:
+        res.finding(nr, nr.node, 'Transformer_NonRecursive.transform: %s, but a node takes as many entries as it has children: when a callback '
+                    'returns Discard the parent takes a value that belongs to an earlier sibling subtree (results differ from Transformer)' % why,
+                    construct='nonrec:stack-balance')
+    ok = ok_take and ok_root
+    res.ob(s2, 'non-recursive traversal drops discarded results where a node takes its arguments, and a discarded root gives None', ok or not ok_bal)
+    if ok_bal and not ok:
+        res.finding(nr, nr.node, 'Transformer_NonRecursive.transform no longer drops Discard %s'
+                    % ('from the arguments a node takes off the stack' if not ok_take else 'at the root (Transformer returns None there)'),
+                    construct='nonrec:discard')
     # children before parents: postfix evaluation over reversed(rev_postfix)
     ok = any(isinstance(n, ast.For) and norm(n.iter).startswith('reversed(') for n in nr.body_nodes())
     res.ob(s2, 'non-recursive traversal evaluates in postfix order (children before parents)', ok)
